@@ -17,7 +17,9 @@ PROP = {
         "Multi.C04.self_assign_id",
         "Multi.C04.swap_exchanges",
         "Multi.C04.view_ctor_copies",
-        "Multi.C04.abs_step_views_partial",
+        "Multi.C04.abs_step_views",
+        "Multi.C04.abs_step_conv_stdswap",
+        "Multi.C04.abs_step_lists",
     ],
     "harnesses": [vc.value_harness(["int", "str", "int+full", "str+full"], 4000, 160000)],
     "hooks": ["compile_probes", "op_histogram"],
@@ -28,8 +30,8 @@ PROP = {
     "assumptions": ["index arithmetic does not overflow ptrdiff_t", "std::allocator (allocator identity / propagation: C10)", "no exception is thrown (C09)",
                     "assignment from a view that aliases the destination is excluded (README: undefined)"],
     "rule": vc.VALUE_RULE,
-    "level_text": "Theorems (all D >= 1, all extents incl. empty and non-zero index bases, all finite in-domain histories, any element type given by (is_trivially_default_constructible, T{})): every whole-array operation of array.hpp as transcribed (construct from extents / fill / copy / iterator range, move construction, move and copy assignment over any prior state, swap, clear, reshape, assign(extensions, v), rvalue reextent, element write, destruction) commutes with the abstraction 'extents + elements in canonical order' and keeps the pool invariant (valid arrays, pairwise distinct blocks); by induction every history does; copies are independent, moves transfer the block and leave an empty valid source, self-assignment is the identity, swap exchanges. Construction from a view of any layout (array(view), +view, decay) yields the view's extents and elements in canonical order in a fresh block (view_ctor_copies, using the elements-iterator theorems of C02). Element-wise assignment from a view into an existing array is tied to /repo by the differential run and the in-harness reference model only (abs_step_views_partial).",
-    "level_note": "Trusted: Lean kernel (+propext, Classical.choice, Quot.sound); the hand transcription MultiModel/Owning.lean (which models the code AFTER the six fix: commits recorded in findings/C04.json), validated by the differential run over histories of up to 40 operations with int and a std::string-holding element type; Int for ptrdiff_t; conversions between element types are the identity on values. Not claimed here: construction/destruction counts, allocator propagation, exceptions (C08-C10); D = 0 arrays and view-sourced operations are covered by the run, not by theorems.",
+    "level_text": "Theorems (all D >= 1, all extents incl. empty and non-zero index bases, all finite in-domain histories, any element type given by (is_trivially_default_constructible, T{})): EVERY operation of array.hpp as transcribed in MultiModel/Owning.lean - construction from extents / fill / copy / iterator range / nested initializer lists / a view of any layout (any chain of in-domain C01 view operations), move construction, move and copy assignment over any prior state, assignment from a view (both operator= overloads incl. the reshape shortcut), from an array of another element type (three branches), from nested lists / ranges (in place or not), swap, std::swap, clear, reshape, assign(extensions, v), the three reextent overloads, element write, destruction - commutes with the abstraction 'extents + elements in canonical order' and keeps the pool invariant (valid arrays, pairwise distinct blocks); by induction every history does; the abstraction is what the run prints; copies are independent, moves transfer the block and leave an empty valid source, self-assignment is the identity, swap exchanges. No partial theorem remains for D >= 1.",
+    "level_note": "Trusted: Lean kernel (+propext, Classical.choice, Quot.sound); the hand transcription MultiModel/Owning.lean (the code AFTER the six fix: commits recorded in findings/C04.json), validated by the differential run over histories of up to 40 operations with int and a std::string-holding element type; Int for ptrdiff_t; conversions between element types are the identity on values; assignment from a view that aliases the target is excluded (README: undefined). Not claimed here: construction/destruction counts, allocator propagation, exceptions (C08-C10); D = 0 arrays are covered by the run, not by theorems.",
 }
 
 
